@@ -138,6 +138,7 @@ struct Fixture {
     std::set<Obj*> myretired[MAXT];
     bool attached[MAXT];
 
+    size_t dhp_initial = 0;
     explicit Fixture( Case const& c ) : variant( c.variant )
     {
         world.reset( new World );
@@ -155,7 +156,11 @@ struct Fixture {
         if ( variant.compare( 0, 2, "hp" ) == 0 )
             smr.reset( new HpSmr( H, T, R, variant.find( "classic" ) != std::string::npos ));
         else {
-            smr.reset( new DhpSmr( 16 ));
+            // initial guard count per thread: the default 16, values below it (extension blocks always hold 16 guards,
+            // so block size and initial size differ) and one above it; values below 4 are mapped to 16 by the library
+            static size_t const initials[] = { 16, 4, 8, 5, 32, 12 };
+            dhp_initial = size_t( c.optl( "dhp_initial", long( initials[( c.index / 2 ) % 6] )));
+            smr.reset( new DhpSmr( dhp_initial ));
             nguards = variant == "dhp_many" ? 40 : 3;        // 40 guards force two extension blocks of the thread's guard storage
         }
         for ( int i = 0; i < ncells; ++i ) {
@@ -257,7 +262,7 @@ struct Fixture {
             if ( r && d != 1 ) W->fail( "retired-object-disposed-" + std::to_string( d ) + "-times obj=" + std::to_string( geti( &o->id )));
             if ( !r && d ) W->fail( "unretired-object-disposed obj=" + std::to_string( geti( &o->id )));
         }
-        out << "# retired=" << retired << " disposed=" << disposed << " H=" << H << " T=" << T << " R=" << R << '\n';
+        out << "# retired=" << retired << " disposed=" << disposed << " H=" << H << " T=" << T << " R=" << R << " dhp_initial=" << dhp_initial << '\n';
         failed = W->failed; failure = W->failure;
     }
 };
